@@ -95,9 +95,11 @@ Theorem C10_rejoin_holds :
         (forall s, In s (numbered_of (jsources l) (fst (name_joins base taken own l))) -> ~ In s taken)
         /\ NoDup (numbered_of (jsources l) (fst (name_joins base taken own l))))
   /\ (forall x, NoDup (name2_names x))
+  (* ... and none of them is the name of a FROM item or of the UPDATE target (WITH queries that are only defined are no sources) *)
+  /\ (forall x s, In s (name2_names x) -> ~ In s (base_names x))
   /\ source_names w_rejoin = ["t"; "t2"; "t3"] /\ name2_names w_rejoin = ["t2"; "t3"].
 Proof.
-  split; [exact first_free_fresh|]. split; [exact numbered_fresh|]. split; [exact name2_NoDup|]. vm_compute. split; reflexivity.
+  split; [exact first_free_fresh|]. split; [exact numbered_fresh|]. split; [exact name2_NoDup|]. split; [exact name2_fresh|]. vm_compute. split; reflexivity.
 Qed.
 Print Assumptions C10_rejoin_holds.
 (* what is still false about builder-made names: a numbered table alias can equal a sub-query tag *)
